@@ -15,6 +15,11 @@ pub const SEPS: &[&str] = &[
     " // i++ \r ",
     // a byte-order mark inside a comment (flattened files carry such banners)
     " // File: \u{feff}contracts/C.sol\n",
+    // white space beyond blank / tab / CR / LF: vertical tab, form feed, no-break space, ideographic space (one line feed inside)
+    "\u{b}\u{c}\u{a0}\n\u{3000}",
+    // annotation comments that tools attach a meaning to (NatSpec tags, linter directives): still only comments
+    " /// @inheritdoc IVault\n",
+    " /** @custom:oz-upgrades-unsafe-allow selfdestruct */ // solhint-disable-next-line\n",
 ];
 /// separators admitted inside a pragma directive (the lexer reads the value as raw text)
 pub const WS_SEPS: &[usize] = &[0, 1, 2, 3, 4, 9];
